@@ -241,6 +241,6 @@ PINNED = [
     ("affine", {"cons": [[["sub", ["neg", ["mul", ["num", 2], ["var", 0]]], ["var", 1]], None]], "strs": ["-2*x - y"], "form": "dict", "vals": [3], "sep": ","}),
 ]
 SUBS = {
-    "affine": Sub(judge=judge, gen=gen_case, quick=4000, thorough=300_000, min_decided=500),
+    "affine": Sub(judge=judge, gen=gen_case, quick=12000, thorough=300_000, min_decided=500),
     "nonlinear": Sub(judge=judge_nonlinear, gen=gen_nonlinear, quick=600, thorough=30_000, min_decided=100),
 }
